@@ -593,6 +593,19 @@ func (x *Explorer) assign(lhs, rhs ast.Expr, stmt ast.Node, st *State) {
 			}
 		}
 	}
+	// x = nil: the variable is nil
+	if rhs != nil {
+		if tv, ok := x.Fn.Info().Types[rhs]; ok && tv.IsNil() {
+			if lk, ok := x.key(Unparen(lhs)); ok {
+				k := lk + " == nil"
+				if "nil" < lk {
+					k = "nil == " + lk
+				}
+				x.meta(k, lhs)
+				st.Facts[k] = true
+			}
+		}
+	}
 	// a freshly made value is not nil
 	if rhs != nil && x.freshValue(rhs) {
 		probe := &ast.BinaryExpr{X: lhs, Op: token.EQL, Y: ast.NewIdent("nil")}
@@ -622,7 +635,7 @@ func (x *Explorer) freshValue(e ast.Expr) bool {
 		}
 	case *ast.CallExpr:
 		n := CalleeName(x.Fn.Info(), v)
-		return n == "builtin.make" || n == "builtin.new"
+		return n == "builtin.make" || n == "builtin.new" || n == "fmt.Errorf" || n == "errors.New"
 	}
 	return false
 }
